@@ -126,7 +126,7 @@ def build(tier="quick", seed=0):
             it.vfs, it.vfs_auto = {}, True
             fp = AbsFile(it, [], mode="r")
             head = [["my name", "2nd", "plain", "_generated"]] if fields_opt is None else []
-            fp.csv_rows = head + [[SStr(sv), "b", "c", "2020-01-02T03:04:05+00:00"], ["", SStr(sw), "z"]]
+            fp.csv_rows = head + [[SStr(sv), "b", "c", "2020-01-02T03:04:05+00:00"], ["", SStr(sw), "z"], ["line1\r\nline2", "cr\ronly", "lf\nonly"]]
             fp.preset = True
             it.vfs["/abs/in.csv"] = fp
             rd = it.call(cs.g["CsvfileReader"], ["/abs/in.csv"], {} if fields_opt is None else {"fields": fields_opt})
@@ -140,9 +140,11 @@ def build(tier="quick", seed=0):
     def judge_csv_read(p):
         fl, out = p.value
         want = [("string", "my_name"), ("string", "x_2nd"), ("string", "plain")]
-        if fl != [want, want] or len(out) != 2:
+        if fl != [want, want, want] or len(out) != 3:
             return False, f"records read: {fl!r}"
-        a, b = out[0].attrs, out[1].attrs
+        a, b, c = out[0].attrs, out[1].attrs, out[2].attrs
+        if (it.unbase(c["my_name"]), it.unbase(c["x_2nd"]), it.unbase(c["plain"])) != ("line1\r\nline2", "cr\ronly", "lf\nonly"):
+            return False, f"cells with line breaks inside were read back as {(it.unbase(c['my_name']), it.unbase(c['x_2nd']), it.unbase(c['plain']))!r}"
         if it.unbase(a["x_2nd"]) != "b" or it.unbase(a["plain"]) != "c" or it.unbase(b["my_name"]) != "" or it.unbase(b["plain"]) != "z":
             return False, f"cells read back as {a!r} {b!r}"
         return z3.And(it.zstr(a["my_name"]) == sv, it.zstr(b["x_2nd"]) == sw), "a text cell changed"
